@@ -46,6 +46,7 @@ type Contract struct {
 	HasMod   bool
 	Decr     *Clause
 	Loops    map[int]*LoopSpec
+	AssertBefore []*Clause // proved just before calls to a named callee (Label = callee|label)
 	Maintains []*Clause // closure invariants over its captured cells (assumed at entry, proved at exit; carried across calls that receive the closure)
 	Impl     string   // implements <iface method key>
 	ImplKey  string   // resolved generic specification key
@@ -75,7 +76,7 @@ type ContractSet struct {
 
 var clauseKeywords = map[string]bool{
 	"func": true, "iface": true, "extern": true, "lemma": true, "cover": true,
-	"use": true, "ghost": true, "requires": true, "ensures": true, "ensures-assumed": true, "maintains": true, "modifies": true,
+	"use": true, "ghost": true, "requires": true, "ensures": true, "ensures-assumed": true, "maintains": true, "assert-before": true, "modifies": true,
 	"decreases": true, "loop": true, "trusted": true, "inline": true, "noinline": true,
 	"implements": true, "tags": true, "params": true, "extra": true, "reveal": true,
 }
@@ -292,6 +293,16 @@ func (cs *ContractSet) parseFile(path string, pkgPath string, raw bool) error {
 				} else {
 					cur.Ensures = append(cur.Ensures, c)
 				}
+			case "assert-before":
+				// assert-before[tags] <callee suffix> label: expr  -- proved just before each call to that callee
+				callee := toks[i]
+				i++
+				label := readLabel()
+				x, err := readSx()
+				if err != nil {
+					return err
+				}
+				cur.AssertBefore = append(cur.AssertBefore, &Clause{Kind: kw, Tags: tags, Label: callee + "|" + label, Expr: x, Src: src(at)})
 			case "maintains":
 				label := readLabel()
 				x, err := readSx()
@@ -419,6 +430,12 @@ func (c *Contract) AllTags() []string {
 		add(cl)
 	}
 	for _, cl := range c.Requires {
+		add(cl)
+	}
+	for _, cl := range c.AssertBefore {
+		add(cl)
+	}
+	for _, cl := range c.Maintains {
 		add(cl)
 	}
 	for _, ls := range c.Loops {
